@@ -52,6 +52,16 @@ def run(ck):
                        "a root-level '/tombstone' planted outside the store namespace (legacy layout) is not generated"]
 
 
+def replay(ck, obj):
+    """check.py --replay <violation file>: validate the recorded trace of the violation again (the trace is the replayable input;
+    re-running the driver with the recorded seed regenerates it)."""
+    r = obj.get("replay") or {}
+    trace = r.get("trace")
+    if not trace or not os.path.exists(trace):
+        raise Inconclusive("replay: recorded trace %s is gone; re-run the check with VERIF_SEED=%s" % (trace, obj.get("seed")))
+    L.validate(ck, "CertStoreCrashTrace", trace, "replay")
+
+
 MANIFEST = dict(
     text=("TLC exhaustively checks on CertStore.tla that after the process stops behind any strict prefix of the datastore writes of Put / Create / "
           "OpenOrCreate / DeleteAll / a resumed wipe, every open variant yields a store observably equal to the state before or after the operation "
